@@ -1,11 +1,14 @@
 package mon
 
 import (
+	"bufio"
 	"bytes"
 	"errors"
 	"fmt"
 	"io"
 	"math/rand"
+	"strings"
+	"testing/iotest"
 
 	"github.com/cloudwego/gopkg/bufiox"
 
@@ -71,6 +74,41 @@ type readerOpts struct {
 	capClass    int  // bytes reader: 0 cap==len, 1 pow2 cap, 2 pow2+1 cap, 3 pow2-1
 	retain      bool // C09: keep every returned slice and re-check until Release
 	cotenant    bool // C09 configuration B: real-pool co-tenant between operations
+	std         int  // > 0: NewDefaultReader over a standard-library reader (see stdSource) holding the whole stream
+}
+
+const nStdSources = 11
+
+var stdSourceNames = []string{"", "bytes.Reader", "strings.Reader", "bytes.Buffer", "bufio.Reader(16)", "iotest.OneByteReader", "iotest.DataErrReader", "iotest.HalfReader",
+	"io.LimitReader", "io.MultiReader", "bytes.Reader behind a plain io.Reader", "io.SectionReader"}
+
+// stdSource wraps data in a standard-library reader: readers with extra methods (Len, WriteTo, ReadByte...),
+// which a buffered reader might be tempted to use, and the iotest fragmenters.
+func stdSource(kind int, data []byte) io.Reader {
+	switch kind {
+	case 1:
+		return bytes.NewReader(data)
+	case 2:
+		return strings.NewReader(string(data))
+	case 3:
+		return bytes.NewBuffer(append([]byte(nil), data...))
+	case 4:
+		return bufio.NewReaderSize(bytes.NewReader(data), 16)
+	case 5:
+		return iotest.OneByteReader(bytes.NewReader(data))
+	case 6:
+		return iotest.DataErrReader(bytes.NewReader(data))
+	case 7:
+		return iotest.HalfReader(bytes.NewReader(data))
+	case 8:
+		return io.LimitReader(bytes.NewReader(append(append([]byte(nil), data...), 0xEE, 0xEE, 0xEE)), int64(len(data)))
+	case 9:
+		h := len(data) / 2
+		return io.MultiReader(bytes.NewReader(data[:h]), strings.NewReader(""), bytes.NewReader(data[h:]))
+	case 10:
+		return struct{ io.Reader }{bytes.NewReader(data)}
+	}
+	return io.NewSectionReader(bytes.NewReader(append([]byte{1, 2, 3}, data...)), 3, int64(len(data)))
 }
 
 type heldSlice struct {
@@ -200,6 +238,12 @@ func runReaderHistory(cs *drv.Case, ops []rOp, spec srcSpec, o readerOpts) (nont
 		}
 		caller = san.NewCanary(spec.Len, capa, doubles.Content)
 		rd = bufiox.NewBytesReader(caller.Buf())
+		avail = spec.Len
+		srcErr = io.EOF
+	} else if o.std > 0 {
+		data := make([]byte, spec.Len)
+		doubles.FillContent(data, 0)
+		rd = bufiox.NewDefaultReader(stdSource(o.std, data))
 		avail = spec.Len
 		srcErr = io.EOF
 	} else {
